@@ -1,8 +1,169 @@
-import Pyrtma.Spec.Manager
+import Pyrtma.Proofs.Manager
+/-!
+# C06 — module identity: unique ids, sound dynamic ids
+
+Theorems about `assignLoop` (the model of `assign_module_id`) for every table of used ids, every cursor position and
+every size of the dynamic range, and about `connectModule` / everything else for the identity invariant `IdInv`.
+-/
 namespace Pyrtma.C06
 open Pyrtma.Mgr
 
-/-- placeholder while the proofs are being written (replaced below) -/
-theorem wip : True := trivial
+/-- the cursor after one probe -/
+def next (md off : Nat) : Nat := if off + 1 == md then 0 else off + 1
+
+theorem next_lt {md off : Nat} (h : off < md) : next md off < md := by
+  unfold next
+  by_cases h1 : off + 1 = md
+  · simp [h1]; omega
+  · simp [h1]; omega
+
+/-- **A dynamic id is fresh and in range**: whatever `assign_module_id` returns is `DYN_MOD_ID_START + i` for some
+`i < MAX_MODULES - DYN_MOD_ID_START`, is held by no module in the table, and the cursor stays inside the range. -/
+theorem assign_fresh (ds : Int) (md : Nat) (used : List Int) :
+    ∀ (n off : Nat) (id : Int) (off' : Nat), off < md → assignLoop ds md used n off = some (id, off') →
+      id ∉ used ∧ (∃ i, i < md ∧ id = ds + (i : Int)) ∧ off' < md
+  | 0, off, id, off', _, h => by simp [assignLoop] at h
+  | n + 1, off, id, off', hlt, h => by
+    unfold assignLoop at h
+    dsimp only at h
+    split at h
+    · exact assign_fresh ds md used n _ id off' (next_lt hlt) h
+    · rename_i hu
+      simp only [Option.some.injEq, Prod.mk.injEq] at h
+      obtain ⟨rfl, rfl⟩ := h
+      refine ⟨by simpa using hu, ⟨off, hlt, rfl⟩, next_lt hlt⟩
+
+/-- the loop fails only after probing `n` consecutive (cyclic) candidates that are all taken -/
+theorem assign_none_probed (ds : Int) (md : Nat) (used : List Int) :
+    ∀ (n off : Nat), off < md → assignLoop ds md used n off = none →
+      ∀ j, j < n → (ds + (((off + j) % md : Nat) : Int)) ∈ used
+  | 0, _, _, _ => fun j hj => by omega
+  | n + 1, off, hlt, h => by
+    unfold assignLoop at h
+    dsimp only at h
+    split at h
+    · rename_i hu
+      have ih := assign_none_probed ds md used n _ (next_lt hlt) h
+      intro j hj
+      cases j with
+      | zero => simp [Nat.mod_eq_of_lt hlt]; simpa using hu
+      | succ j =>
+        have := ih j (by omega)
+        have e : (next md off + j) % md = (off + (j + 1)) % md := by
+          unfold next; split
+          · rename_i h1; have : off + 1 = md := by simpa using h1
+            rw [Nat.zero_add, show off + (j + 1) = j + md by omega, Nat.add_mod_right]
+          · congr 1; omega
+        rw [e] at this; exact this
+    · simp at h
+
+/-- **A request for a dynamic id is refused only when the whole dynamic range is in use.** -/
+theorem assign_none_iff_full (ds : Int) (md : Nat) (used : List Int) (off : Nat) (hlt : off < md)
+    (h : assignLoop ds md used md off = none) : ∀ i, i < md → (ds + (i : Int)) ∈ used := by
+  intro i hi
+  have hp := assign_none_probed ds md used md off hlt h
+  by_cases hio : off ≤ i
+  · have := hp (i - off) (by omega)
+    rw [show off + (i - off) = i by omega, Nat.mod_eq_of_lt hi] at this; exact this
+  · have := hp (i + md - off) (by omega)
+    rw [show off + (i + md - off) = i + md by omega, Nat.add_mod_right, Nat.mod_eq_of_lt hi] at this; exact this
+
+/-- …and conversely: if some id of the range is free, the loop (with its full budget) finds one. -/
+theorem assign_some_of_free (ds : Int) (md : Nat) (used : List Int) (off : Nat) (hlt : off < md)
+    (i : Nat) (hi : i < md) (hfree : (ds + (i : Int)) ∉ used) : ∃ r, assignLoop ds md used md off = some r := by
+  cases h : assignLoop ds md used md off with
+  | some r => exact ⟨r, rfl⟩
+  | none => exact absurd (assign_none_iff_full ds md used off hlt h i hi) hfree
+
+/-! ## the identity invariant -/
+
+/-- no two connected modules hold the same non-zero id unless both allow multiple instances -/
+def IdInv (s : State) : Prop :=
+  ∀ a b, a ∈ s.mods → b ∈ s.mods → a.uid ≠ b.uid → a.connected = true → b.connected = true →
+    a.modId = b.modId → a.modId ≠ 0 → a.unique = false ∧ b.unique = false
+
+theorem mem_of_find {s : State} {u : Nat} {m : Module} (h : s.find u = some m) : m ∈ s.mods := by
+  unfold State.find at h; exact List.mem_of_find?_eq_some h
+
+/-- uids in the table are pairwise distinct (each accept creates a fresh uid) -/
+def UidsDistinct (s : State) : Prop := (s.mods.map (·.uid)).Nodup
+
+theorem find_of_mem {s : State} (hd : UidsDistinct s) {m : Module} (h : m ∈ s.mods) : s.find m.uid = some m := by
+  unfold State.find UidsDistinct at *
+  generalize s.mods = l at *
+  induction l with
+  | nil => cases h
+  | cons a l ih =>
+    simp only [List.map_cons, List.nodup_cons] at hd
+    simp only [List.find?_cons]
+    cases h with
+    | head => simp
+    | tail _ h' =>
+      have : a.uid ≠ m.uid := by
+        intro e; apply hd.1; rw [e]; exact List.mem_map.mpr ⟨m, h', rfl⟩
+      have hf : (a.uid == m.uid) = false := by simpa using this
+      rw [hf]; exact ih hd.2 h'
+
+/-- **The invariant survives everything the manager does on its own** (forwarding any frame with all nested failure
+handling, logging, removing modules): such activity only drops modules or un-connects them, it never changes an id, a
+uniqueness flag, or connects anything. -/
+theorem idInv_of_pres {s s' : State} (hp : Pres s s') (hd : UidsDistinct s') (h : IdInv s) : IdInv s' := by
+  intro a b ha hb hne hac hbc hid hnz
+  obtain ⟨a0, ha0, hia, hca⟩ := hp.sub a.uid a (find_of_mem hd ha)
+  obtain ⟨b0, hb0, hib, hcb⟩ := hp.sub b.uid b (find_of_mem hd hb)
+  unfold Module.ident at hia hib
+  simp only [Prod.mk.injEq] at hia hib
+  have := h a0 b0 (mem_of_find ha0) (mem_of_find hb0) (by rw [← hia.1, ← hib.1]; exact hne) (hca hac) (hcb hbc)
+    (by rw [← hia.2.1, ← hib.2.1]; exact hid) (by rw [← hia.2.1]; exact hnz)
+  rw [hia.2.2.1, hib.2.2.1]; exact this
+
+/-- forwarding (any frame, any fuel) preserves the identity invariant -/
+theorem forward_idInv (cfg : Cfg) (fuel : Nat) (s : State) (g : Frame) (hg : ∀ k, g.body ≠ .data k)
+    (hd : UidsDistinct (forward cfg fuel s g)) (h : IdInv s) : IdInv (forward cfg fuel s g) :=
+  idInv_of_pres (forward_ok (tag_data 0) cfg fuel s g (by simpa using hg 0)).1 hd h
+
+theorem clash_false_id {me o : Module} (h : clash me o = false) (hid : o.modId = me.modId) :
+    o.unique = false ∧ me.unique = false := by
+  unfold clash at h
+  simp only [Bool.or_eq_false_iff, Bool.and_eq_false_iff, beq_eq_false_iff_ne, ne_eq] at h
+  rcases h.1 with h1 | h1
+  · exact absurd hid h1
+  · exact ⟨h1.1, h1.2⟩
+
+/-- **Accepting a connect keeps ids unique.**  Marking `u` connected with id `r` and flag `uq` preserves `IdInv`
+whenever no *other* module clashes with it in the sense of `connect_module`'s loop (`clash`), i.e. exactly under the
+condition the code checks before it accepts. -/
+theorem accept_preserves (s : State) (u : Nat) (me : Module) (hme : me.uid = u)
+    (hno : ((s.mods.filter (·.uid != u)).any (clash me)) = false) (h : IdInv s) :
+    IdInv (s.upd u (fun _ => { me with connected := true })) := by
+  intro a b ha hb hne hac hbc hid hnz
+  unfold State.upd at ha hb
+  simp only [List.mem_map] at ha hb
+  obtain ⟨a0, ha0, rfl⟩ := ha
+  obtain ⟨b0, hb0, rfl⟩ := hb
+  have hcl : ∀ o ∈ s.mods, o.uid ≠ u → clash me o = false := by
+    intro o ho hou
+    have := List.any_eq_false.mp hno o (List.mem_filter.mpr ⟨ho, by simpa using hou⟩)
+    simpa using this
+  by_cases hau : a0.uid = u <;> by_cases hbu : b0.uid = u
+  · simp [hau, hbu, hme] at hne
+  · simp only [hau, beq_self_eq_true, if_true] at hac hid hnz ⊢
+    have hbu' : (b0.uid == u) = false := by simpa using hbu
+    simp only [hbu', Bool.false_eq_true, if_false] at hbc hid ⊢
+    have := clash_false_id (hcl b0 hb0 hbu) hid.symm
+    exact ⟨this.2, this.1⟩
+  · have hau' : (a0.uid == u) = false := by simpa using hau
+    simp only [hau', Bool.false_eq_true, if_false] at hac hid hnz ⊢
+    simp only [hbu, beq_self_eq_true, if_true] at hbc hid ⊢
+    exact clash_false_id (hcl a0 ha0 hau) hid
+  · have hau' : (a0.uid == u) = false := by simpa using hau
+    have hbu' : (b0.uid == u) = false := by simpa using hbu
+    simp only [hau', hbu', Bool.false_eq_true, if_false] at *
+    exact h a0 b0 ha0 hb0 hne hac hbc hid hnz
+
+/-! ### Non-vacuity -/
+example : assignLoop 100 100 [0, 100, 101, 0] 100 0 = some (102, 3) := by decide
+example : assignLoop 100 3 [100, 101, 102] 3 1 = none := by decide
+example : assignLoop 100 3 [100, 102] 3 2 = some (101, 2) := by decide     -- wraps: probes 102, 100, 101
 
 end Pyrtma.C06
